@@ -410,6 +410,18 @@ type readResult struct {
 	openErr error
 	steps   []step
 	layout  *sstable.Layout // tables only, reference read only
+	// entries: forward scan on ONE iterator that keeps going after a value
+	// fetch failed (a value error does not invalidate the iterator position);
+	// entriesErr is the iterator's terminal error.
+	entries    []entryRes
+	entriesErr error
+}
+
+// entryRes is one position of the keep-going scan.
+type entryRes struct {
+	key  []byte // encoded internal key
+	val  []byte
+	verr error
 }
 
 func memObjOf(data []byte) *objstorage.MemObj {
@@ -505,6 +517,27 @@ func readTable(data []byte, useCache bool, seekKeys [][]byte, maxEntries int, wa
 			}
 		}
 		return d, firstErr(verr, it.Error(), it.Close())
+	}
+	// keep-going forward scan: every value fetch is attempted even after an
+	// earlier one failed (same iterator, so cached value-block state is reused).
+	if it, err := r.NewIter(sstable.NoTransforms, nil, nil, sstable.AssertNoBlobHandles); err != nil {
+		res.entriesErr = err
+	} else {
+		n := 0
+		for kv := it.First(); kv != nil; kv = it.Next() {
+			e := entryRes{key: appendKV(nil, &kv.K, nil)}
+			v, _, verr := kv.Value(nil)
+			if verr != nil {
+				e.verr = verr
+			} else {
+				e.val = append([]byte(nil), v...)
+			}
+			res.entries = append(res.entries, e)
+			if n++; n > maxEntries {
+				break
+			}
+		}
+		res.entriesErr = firstErr(it.Error(), it.Close())
 	}
 	d, err := scan(true)
 	add("scan-forward", d, err)
@@ -981,6 +1014,37 @@ func compareReads(ref, got readResult) (outcome string, err error) {
 		return "", fmt.Errorf("internal: %d steps vs %d", len(got.steps), len(ref.steps))
 	}
 	outcome = "same"
+	// keep-going scan: each position must carry the original key, and its value
+	// must be the original value or an error; the scan may only end early with
+	// an iterator error.
+	for i, e := range got.entries {
+		if i >= len(ref.entries) {
+			if got.entriesErr == nil {
+				return "", fmt.Errorf("keep-going scan returned %d entries without an error, the original has %d", len(got.entries), len(ref.entries))
+			}
+			break
+		}
+		if !bytes.Equal(e.key, ref.entries[i].key) {
+			if got.entriesErr == nil {
+				return "", fmt.Errorf("keep-going scan: entry %d has key %q, original %q, and the scan ended without an error", i, e.key, ref.entries[i].key)
+			}
+			break
+		}
+		if e.verr != nil {
+			outcome = "read-error"
+			continue
+		}
+		if !bytes.Equal(e.val, ref.entries[i].val) {
+			return "", fmt.Errorf("keep-going scan (one iterator, value fetches continue after an earlier fetch failed): entry %d key %q returned a different value without an error: got %q, original %q",
+				i, e.key, excerpt(e.val, firstDiff(e.val, ref.entries[i].val)), excerpt(ref.entries[i].val, firstDiff(e.val, ref.entries[i].val)))
+		}
+	}
+	if len(got.entries) < len(ref.entries) && got.entriesErr == nil {
+		return "", fmt.Errorf("keep-going scan returned %d of %d entries without an error", len(got.entries), len(ref.entries))
+	}
+	if got.entriesErr != nil {
+		outcome = "read-error"
+	}
 	for i, s := range got.steps {
 		if s.err != nil {
 			outcome = "read-error"
